@@ -978,6 +978,33 @@ def build_marking_app(falcon, asgi):
     app.add_route('/err/{kind}', Fail())
     app.add_error_handler(ErrA, handler('A', falcon.HTTP_429))
     app.add_error_handler(ErrB, handler('B', falcon.HTTP_503))
+
+    # Every HTTPError (raised by a responder or by falcon itself: 404, 405, media errors ...) is
+    # personalised by a handler -- description and headers of the exception object are written with
+    # the request's mark and read back after a suspension point -- and then handed to falcon's own
+    # handler for rendering.  An exception object (or its headers dict) shared between requests
+    # shows as a foreign mark in the rendered error.
+    def mark_error(req, ex):
+        m = req.get_header('X-Rid') or 'none'
+        ex.description = (ex.description or '') + '|' + m
+        hdrs = ex.headers
+        if not isinstance(hdrs, dict):
+            hdrs = dict(hdrs or ())
+        hdrs['X-ExMark-' + m] = m
+        ex.headers = hdrs
+
+    if asgi:
+        async def http_error(req, resp, ex, params, **kw):
+            mark_error(req, ex)
+            await Suspend()
+            resp.set_header('X-Ex-Seen', (ex.description or '') + ';' + ','.join(sorted(ex.headers or ())))
+            await app._http_error_handler(req, resp, ex, params, **kw)
+    else:
+        def http_error(req, resp, ex, params):
+            mark_error(req, ex)
+            resp.set_header('X-Ex-Seen', (ex.description or '') + ';' + ','.join(sorted(ex.headers or ())))
+            app._http_error_handler(req, resp, ex, params)
+    app.add_error_handler(falcon.HTTPError, http_error)
     return app
 
 
